@@ -22,6 +22,9 @@
                                        put / + on constants and literals
        <body of Heap/FuncState.v>      over the list constants followed by the list-valued lets (LConst), the scalar
                                        constants followed by the integer-valued lets (SCst)
+       or "lit"+e1+"lit"+e2...         a STRING: immutable scalars without heap state; `+` with a string on the left appends
+                                       the decimal text of the integer on the right (value/operations.go
+                                       operationMatrixStringAdd); e_i over arguments, scalar constants and integer lets
 
    so `let c0=[1,2].append(3); let m0={l:c0,n:1}; let x0={a:a0,l:c0}.l; let x1=m0.put("z",a1).l;
    x0.append(a0).size()*10+x1.append(a1)[3]` appends twice to the ONE object c0, reached through a per-evaluation
@@ -32,7 +35,7 @@
    is outside the faithful fragment (Run/C10Run.v xprog_typed rejects it).
 
    Specification side at the end of the file: maps as association lists whose list-valued entries hold CONTENT. *)
-From P2 Require Import Base.Prelude Heap.ListHeap Heap.MapHeap Heap.FuncState.
+From P2 Require Import Base.Prelude Sem.Num Heap.ListHeap Heap.MapHeap Heap.FuncState.
 Local Open Scope nat_scope.
 
 Inductive xval :=
@@ -52,12 +55,17 @@ Inductive xbind :=
 | XBIndex (o : nat) (i : sexp)   (* let x = o_k[i]; the i-th inner list of the k-th list of lists *)
 | XBOSize (o : nat).             (* let s = o_k.size(); *)
 
+(* a string result: literal parts and integers rendered in decimal, concatenated from the left *)
+Inductive xspart := XSLit (s : str) | XSInt (e : sexp).
+Inductive xbody := XB (b : body) | XBStr (parts : list xspart).
+Inductive xoutcome := XO (o : outcome) | XOStr (s : str).
+
 (* xp_odefs: the lists of lists, each given by the numbers of the list constants it holds *)
-Record xprog := mkXP { xp_defs : list def; xp_odefs : list (list nat); xp_mdefs : list xmexp; xp_binds : list xbind; xp_body : body }.
+Record xprog := mkXP { xp_defs : list def; xp_odefs : list (list nat); xp_mdefs : list xmexp; xp_binds : list xbind; xp_body : xbody }.
 
 (* a generated function: list constants (object numbers), scalar constants, lists of lists (object numbers), map
    constants (storages), lets, body *)
-Record xfunc := mkXF { xf_cs : list nat; xf_zs : list Z; xf_os : list nat; xf_ms : list mstore; xf_binds : list xbind; xf_body : body }.
+Record xfunc := mkXF { xf_cs : list nat; xf_zs : list Z; xf_os : list nat; xf_ms : list mstore; xf_binds : list xbind; xf_body : xbody }.
 
 Record xenv := mkXE { xe_cs : list nat; xe_zs : list Z; xe_os : list nat; xe_ms : list mstore; xe_args : list Z }.
 
@@ -75,6 +83,12 @@ Fixpoint xvs_eval (en : xenv) (es : list (str * xval)) : option (list entry) :=
   | [] => Some []
   | (k, v) :: r => match xv_eval en v, xvs_eval en r with Some z, Some ents => Some ((k, z) :: ents) | _, _ => None end
   end.
+
+Definition xs_render (zs args : list Z) (parts : list xspart) : str :=
+  flat_map (fun p => match p with
+                     | XSLit s => s
+                     | XSInt e => int_to_str (ev_s (mkEnv id_caps [] zs args) e)
+                     end) parts.
 
 (* a map expression: the only heap step is the literal's builder (MapHeap.mstep (MLit ents)) *)
 Fixpoint ev_xm (en : xenv) (mh : mheap) (e : xmexp) : mheap * option mstore :=
@@ -204,7 +218,7 @@ Definition new_xgenerator : xgstate := mkXG empty_heap empty_mheap [].
 (* Generate: the list definitions (Heap/FuncState.v sc_generate), the lists of lists, then the map definitions.  A definition whose
    folding fails would stay a run-time let: not modelled (no function is added) *)
 Definition xgenerate (cp : caps) (g : xgstate) (p : xprog) : xgstate :=
-  let '(h1, r) := run_iso (xg_heap g) (sc_generate cp (mkP (xp_defs p) (xp_body p))) in
+  let '(h1, r) := run_iso (xg_heap g) (sc_generate cp (mkP (xp_defs p) (BZ ZThrow))) in
   match r with
   | None => mkXG h1 (xg_mh g) (xg_funcs g)
   | Some F =>
@@ -221,11 +235,15 @@ Definition xgenerate (cp : caps) (g : xgstate) (p : xprog) : xgstate :=
   end.
 
 (* Func.Eval: the lets (both heaps), then the body (list heap) with the extended tables *)
-Definition xeval_fn (cp : caps) (h : heap) (mh : mheap) (F : xfunc) (args : list Z) (j : nat) : heap * mheap * outcome :=
+Definition xeval_fn (cp : caps) (h : heap) (mh : mheap) (F : xfunc) (args : list Z) (j : nat) : heap * mheap * xoutcome :=
   let '(h1, mh1, r) := ev_binds cp (mkXE (xf_cs F) (xf_zs F) (xf_os F) (xf_ms F) args) h mh (xf_binds F) in
   match r with
-  | None => (h1, mh1, OErr)
-  | Some (cs, zs) => let '(h2, o) := run_iso h1 (sc_eval cp (mkF cs zs (xf_body F)) args j) in (h2, mh1, o)
+  | None => (h1, mh1, XO OErr)
+  | Some (cs, zs) =>
+      match xf_body F with
+      | XB b => let '(h2, o) := run_iso h1 (sc_eval cp (mkF cs zs b) args j) in (h2, mh1, XO o)
+      | XBStr parts => (h1, mh1, XOStr (xs_render zs args parts))     (* no heap step *)
+      end
   end.
 
 Inductive xevent :=
@@ -235,9 +253,9 @@ Inductive xevent :=
 | XEMapOps (ops : list mop).                   (* anything else done with maps of this heap (value/map.go operations) *)
 Arguments XEEval k%nat args%Z j%nat.
 
-Definition xeval_in (cp : caps) (g : xgstate) (k : nat) (args : list Z) (j : nat) : heap * mheap * outcome :=
+Definition xeval_in (cp : caps) (g : xgstate) (k : nat) (args : list Z) (j : nat) : heap * mheap * xoutcome :=
   match nth_error (xg_funcs g) k with
-  | None => (xg_heap g, xg_mh g, OErr)
+  | None => (xg_heap g, xg_mh g, XO OErr)
   | Some F => xeval_fn cp (xg_heap g) (xg_mh g) F args j
   end.
 
@@ -251,7 +269,7 @@ Definition xrun_event (cp : caps) (g : xgstate) (e : xevent) : xgstate :=
 
 Definition xrun_hist (cp : caps) (g : xgstate) (hist : list xevent) : xgstate := fold_left (xrun_event cp) hist g.
 
-Definition xeval_after (cp : caps) (g : xgstate) (hist : list xevent) (k : nat) (args : list Z) (j : nat) : outcome :=
+Definition xeval_after (cp : caps) (g : xgstate) (hist : list xevent) (k : nat) (args : list Z) (j : nat) : xoutcome :=
   snd (xeval_in cp (xrun_hist cp g hist) k args j).
 
 (* ------------------------------------------------------------------ maps without the map heap
@@ -329,10 +347,14 @@ Fixpoint pm_binds (en : xenv) (cvm : list (list entry)) (lc : nat -> list Z) (bs
 
 (* what function F denotes on the state (h, mh) it was generated on: lets from the entries its constant maps show in
    mh, body from the CONTENT its list constants have in h *)
-Definition xfunc_denotes (h : heap) (mh : mheap) (F : xfunc) (args : list Z) (j : nat) : outcome :=
+Definition xfunc_denotes (h : heap) (mh : mheap) (F : xfunc) (args : list Z) (j : nat) : xoutcome :=
   match pm_binds (mkXE (xf_cs F) (xf_zs F) (xf_os F) (xf_ms F) args) (map (miter (mh_arrs mh)) (xf_ms F)) (icontent h) (xf_binds F) with
-  | None => OErr
-  | Some (cs, zs) => sp_body (func_senv h (mkF cs zs (xf_body F)) args) (xf_body F) j
+  | None => XO OErr
+  | Some (cs, zs) =>
+      match xf_body F with
+      | XB b => XO (sp_body (func_senv h (mkF cs zs b) args) b j)
+      | XBStr parts => XOStr (xs_render zs args parts)
+      end
   end.
 
 (* ------------------------------------------------------------------ specification side
@@ -448,7 +470,7 @@ Fixpoint sp_mdefs (se : xsenv) (ds : list xmexp) : option (list (list sentry)) :
   end.
 
 (* THE SPECIFICATION of a mixed program *)
-Definition sp_xprog (p : xprog) (args : list Z) (j : nat) : option outcome :=
+Definition sp_xprog (p : xprog) (args : list Z) (j : nat) : option xoutcome :=
   match sp_defs (xp_defs p) [] [] with
   | None => None
   | Some (cv, zs) =>
@@ -459,8 +481,12 @@ Definition sp_xprog (p : xprog) (args : list Z) (j : nat) : option outcome :=
           | None => None
           | Some mv =>
               Some (match sp_binds (mkXSE cv zs ov mv args) (xp_binds p) with
-                    | None => OErr
-                    | Some (cv', zs') => sp_body (mkSE cv' zs' args) (xp_body p) j
+                    | None => XO OErr
+                    | Some (cv', zs') =>
+                        match xp_body p with
+                        | XB b => XO (sp_body (mkSE cv' zs' args) b j)
+                        | XBStr parts => XOStr (xs_render zs' args parts)
+                        end
                     end)
           end
       end
